@@ -17,6 +17,8 @@ class TimingMonitor(Monitor):
         self.gaps = collections.defaultdict(list)    # link -> [(t_prev, t)] of the largest few
         self.last_accept = {}    # conn name -> virtual t of last accepted datagram
         self.first_accept = {}
+        self.temp_seen = {}      # addr -> [first tick seen in the temp pool, last tick seen]
+        self.temp_gone = {}      # addr -> first tick it was no longer in the temp pool
         world.net.taps.append(self.tap)
 
     def tap(self, wid, t, src, dst, data, fate):
@@ -34,6 +36,16 @@ class TimingMonitor(Monitor):
             cn = self.w.conn_name(conn)
             self.last_accept[cn] = self.w.k.now
             self.first_accept.setdefault(cn, self.w.k.now)
+
+    def on_tick(self):
+        # presence of half-open (temp) connections per tick
+        w = self.w
+        now = w.k.now
+        for addr in w.ctxt.temp_connections:
+            self.temp_seen.setdefault(addr, [now, now])[1] = now
+        for addr, iv in self.temp_seen.items():
+            if addr not in w.ctxt.temp_connections and addr not in self.temp_gone:
+                self.temp_gone[addr] = now
 
 
 class C12(UdpCheck):
@@ -56,7 +68,7 @@ class C12(UdpCheck):
         dt = rng.choice([d for d in (1 / 240, 1 / 120, 1 / 60, 1 / 60, 1 / 30, 1 / 15) if d <= max(interval, 1 / 60) + 1e-12])
         lat = rng.choice([0.0, 0.001, 0.01, 0.05, 0.2])
         jit = rng.choice([0.0, 0.0, 0.005, 0.05])
-        scen = ["idle", "idle", "cut", "cut", "unanswered", "setters", "setters"][i % 7]
+        scen = ["idle", "outage", "cut", "cut", "unanswered", "setters", "setters", "ctx", "idle", "outage"][i % 10]
         if tier == "quick" and i in (0, 1):
             scen = "idle-long"
         elif tier == "thorough" and i % 400 == 0:
@@ -76,6 +88,7 @@ class C12(UdpCheck):
             "latency": lat, "jitter": jit, "reactor_lag": rng.choice([0.0, 0.0, 0.002]),
             "instr_cost": rng.choice([1e-6, 5e-6]),
             "server": {"interval": interval, "keep_alive": s_keep, "conn_timeout": conn_to,
+                       "configure_after_construction": rng.random() < 0.5,
                        "temp_timeout": rng.choice([None, 0.5, 2.0, 4.0]), "msg_timeout": None,
                        "offset": 1.7e9 + rng.randrange(10 ** 6), "rate": 1.0 + rng.choice([0, 0, 1e-3, -1e-3])},
             "clients": [{"dt": dt, "offset": 1.7e9 + rng.randrange(10 ** 6), "rate": 1.0 + rng.choice([0, 0, 1e-3, -1e-3]),
@@ -83,7 +96,38 @@ class C12(UdpCheck):
             "phases": [], "scenario": scen,
         }
         plan = [{"op": "connect", "c": 0, "t": 0.05, "cb": True}]
-        if scen == "idle":
+        if scen == "ctx":
+            # ServerContext setters: handshake (temp) timeout and message timeout, observed on the server side.
+            # c1 stays connected (keeps the loop ticking); c0's handshake is cut right after its hello.
+            cfg["clients"].append(dict(cfg["clients"][0], t0=0.01))
+            ttemp = rng.choice([0.5, 1.0, 2.5])
+            smsg = rng.choice([0.4, 1.5, 2.5])
+            cfg["server"]["temp_timeout"] = ttemp
+            cfg["server"]["msg_timeout"] = smsg
+            cfg["latency"] = max(cfg["latency"], 0.02)
+            plan = [{"op": "connect", "c": 1, "t": 0.05, "cb": True},
+                    {"op": "connect", "c": 0, "t": 1.0, "cb": True, "pre": [["conn_timeout", 6.0]]}]
+            cfg["phases"].append({"t0": 1.0 + 2.2 * dt, "t1": 10 ** 9, "src": "c0", "dst": "S", "cut": True})
+            plan.append({"op": "ssend", "c": 1, "t": 3.0, "len": 10, "retry": 0, "cb": True, "api": "send"})
+            cfg["phases"].append({"t0": 2.98, "t1": 3.0 + 3 * max(interval, 1 / 60) + 0.03, "src": "S", "dst": "c1", "cut": True})
+            cfg["ctx"] = {"temp_timeout": ttemp, "msg_timeout": smsg}
+            cfg["duration"] = 8.0
+        elif scen == "outage":
+            # a transient outage, shorter than both liveness timeouts, that swallows many consecutive datagrams
+            # (often more than the 32-packet window), then a healed network: the connection must survive
+            limit = min(conn_to or 5.0, CLIENT_DROP_S)
+            d = round(min(limit * rng.choice([0.2, 0.5, 0.7, 0.85]), limit - 2 * max(c_emit, s_emit) - 0.3), 3)
+            if d < 0.2:
+                d = 0.2
+            tc = round(2.0 + rng.random() * 2.0, 4)
+            cfg["outage"] = {"t": tc, "d": d}
+            cfg["phases"].append({"t0": tc, "t1": tc + d, "cut": True})
+            if rng.random() < 0.5:      # keep datagrams flowing at the send cap during the outage
+                for j in range(int((d + 0.5) * 60)):
+                    plan.append({"op": rng.choice(["send", "ssend"]), "c": 0, "t": round(tc - 0.2 + j / 60.0, 4), "len": 5,
+                                 "retry": 0, "cb": False, "api": "send"})
+            cfg["duration"] = tc + d + 12.0
+        elif scen == "idle":
             cfg["duration"] = rng.choice([10.0, 30.0, 30.0, 90.0, 600.0] if tier == "quick" else [10.0, 60.0, 600.0, 1800.0])
             if cfg["duration"] > 100 and (min(c_keep or 0.1, s_keep or 0.1) < 0.1):
                 cfg["duration"] = 90.0
@@ -193,7 +237,35 @@ class C12(UdpCheck):
                                       "keep_alive": eff_c_keep if who == "client" else s_keep}})
             return worst
 
-        if scen in ("idle", "idle-long", "setters", "cut"):
+        if scen == "ctx":
+            from world.udpworld import client_addr as _ca
+            w.reached = True
+            ctx = cfg["ctx"]
+            a0 = _ca(0)
+            sname = next((w.conn_name(sc) for sc in w.all_server_conns if w.net.name(sc.addr) == "c0"), None)
+            la = mon.last_accept.get(sname)
+            promoted = any(e[1] == "connect" and tuple(e[4][0]) == a0 for e in w.hev)
+            if la is None or promoted:
+                w.vacuous = True
+            else:
+                gone = mon.temp_gone.get(a0)
+                Tt = ctx["temp_timeout"]
+                hi = Tt + 2 * max(interval, 1 / 60) + interval + 0.05
+                if gone is None:
+                    vs.append({"kind": "half_open_connection_never_removed", "key": "", "detail": {"temp_timeout": Tt, "end": w.k.now}})
+                elif gone - la < Tt - tol(Tt) or gone - la > hi + tol(hi):
+                    vs.append({"kind": "context_setter_without_effect", "key": "temp_timeout:%s" % ("early" if gone - la < Tt else "late"),
+                               "detail": {"configured": Tt, "removed_after": round(gone - la, 4), "window_hi": round(hi, 4)}})
+            mid = next((s_["mid"] for s_ in w.sends if s_["who"] == "S"), None)
+            sent = next((s_ for s_ in w.sends if s_["mid"] == mid), None)
+            calls = [(t, v) for t, m, v in w.cbs if m == mid]
+            if sent is not None and sent["ok"] and sent["status"] == "CONNECTED":
+                mt = ctx["msg_timeout"]
+                d = calls[0][0] - sent["t"] if calls else None
+                if not calls or calls[0][1] is not False or d < mt - tol(mt) - interval or d > mt + 3 * max(interval, 1 / 60) + 0.25 + tol(mt):
+                    vs.append({"kind": "context_setter_without_effect", "key": "msg_timeout", "detail": {"configured": mt, "callback": calls[:2], "after": d}})
+            return vs
+        if scen in ("idle", "idle-long", "setters", "cut", "outage"):
             if t_connected is None or h_connect is None:
                 w.vacuous = True
                 return vs
@@ -205,6 +277,18 @@ class C12(UdpCheck):
                 # the link is idle, so the observed cadence IS the keep-alive interval in effect
                 vs.append({"kind": "setter_without_effect", "key": "keep_alive:%s" % self._when(case, "keep_alive"),
                            "detail": {"configured": eff_c_keep, "observed_max_gap": round(gc, 4)}})
+        if scen == "outage":
+            o = cfg["outage"]
+            if t_connected is None or t_connected > o["t"]:
+                w.vacuous = True
+                return vs
+            w.reached = True
+            w.probe("datagrams_lost_in_outage", w.decider.counts.get("partition_drop", 0))
+            if any(st in ("DROPPED", "DISCONNECTED") for t, st in statuses if t > t_connected) or h_disc:
+                vs.append({"kind": "connection_did_not_survive_transient_outage", "key": "",
+                           "detail": {"outage_s": o["d"], "conn_timeout": T, "lost": w.decider.counts.get("partition_drop", 0),
+                                      "statuses": statuses[-3:], "handler_disconnect": [round(x, 3) for x in h_disc[:2]]}})
+            return vs
         if scen in ("idle", "idle-long"):
             w.reached = True
             if any(st in ("DROPPED", "DISCONNECTED") for t, st in statuses if t > t_connected) or h_disc:
